@@ -25,6 +25,9 @@ Deciding step: complete enumeration of declared finite products on the real impo
 * Vd degenerate spellings of every skip-reason field (blank, white space, two-letter
      combinations of skip codes, prefixes, lower case, 0/00/000/blank numerics), all pairs of
      fields crossed completely;
+* P  process histories: every sequence of 2..3 database objects (same airports in another
+     first-use order so that airport ids differ, other airports, same route) built one after the
+     other in ONE process, each database judged on its own;
 * M  "same object" histories: every sequence of up to 3 rows from a 7-row alphabet added
      to ONE database (shared airport cache, line-keyed warnings, flight ids), also through
      the file converter.
@@ -37,6 +40,7 @@ from __future__ import annotations
 
 import csv
 import itertools
+import json
 import math
 import os
 import shutil
@@ -72,6 +76,12 @@ ASSUMPTIONS = [
     'schedules.day is compared with the UTC day number of the departure instant (documented in the importer as '
     '"day number since Unix epoch"), reported under its own kind',
     'hours 00-23 / minutes 00-59 only',
+    'cases run inside long-lived workers; a case showing an untagged violation is re-evaluated in a clean process '
+    '(child of a zygote forked before the worker ran anything). If it only fails after databases built earlier '
+    'in the worker, that history is re-created explicitly (earlier databases + this one as ONE multi-database '
+    'case, clean process) and reported with that self-contained case (at most 3 per worker; the remaining ones '
+    'are counted under outcome depends-on-earlier-database:not-searched). State that MASKS a violation inside a '
+    'worker is not searched for; process histories are enumerated explicitly in sub-lattice P',
     'spellings of skip-reason fields: ONLY the exact documented codes (service V/U, operating N, the six equipment '
     'codes, the one-character end-of-file carrier, non-zero stops, airport code absent from the airport data) are '
     'skip reasons. Blank / white-space cells, two-letter combinations and concatenations of skip codes (VU, NO, '
@@ -214,6 +224,19 @@ VD_AXES = {
     'dist': ['exact', 'raw:0', 'raw:00', 'raw:0000000', 'raw:', 'raw: '],
     'depapt': ['JFK', 'QPX', '', ' ', 'JFKBOS', 'JF', 'jfk', ' JFK'],
     'arrapt': ['BOS', 'ZZZ', '', 'BOSJFK', 'bos', 'BOS '],
+}
+
+# Database "scripts" for process histories: two or three database objects are built one after the other
+# in ONE process and each is judged on its own.  Scripts share airports in a different first-use order
+# (so the per-database airport ids differ), use disjoint airports, or repeat a route.  All rows are ones
+# the open distance-check finding does not mis-decide (mirror-point verdict = true verdict, or not-a-number
+# for a plausible row), so nothing here can be attributed to it.
+P_SCRIPTS = {
+    'A': [('JFK', 'BOS', 'exact'), ('BOS', 'LAX', 'exact')],
+    'B': [('BOS', 'LAX', 'exact'), ('JFK', 'BOS', 'exact')],  # same airports, other first-use order
+    'C': [('SXF', 'TXL', 'exact'), ('TXL', 'SXF', 'exact')],  # other airports, 25 km apart
+    'D': [('DEN', 'PHX', 'exact'), ('PHX', 'LAX', 'exact')],  # other airports, west of 90 W
+    'E': [('JFK', 'BOS', '+200'), ('BOS', 'JFK', 'exact')],  # same route, first row implausible
 }
 
 M_ALPHABET = {
@@ -395,6 +418,22 @@ def sublattices(tier, seed):
         'axes': {'route': routes, 'row': {k: list(v) for k, v in R_ALPHABET.items()}, 'length': [1, 2, 3], 'import route': ['add', 'file']},
         'cases': cases,
     })  # fmt: skip
+
+    # ---- P
+    letters = list(P_SCRIPTS)
+    cases = []
+    for via, maxlen in (('add', 3), ('file', 3 if T else 2)):
+        for n in range(2, maxlen + 1):
+            for seq in itertools.product(letters, repeat=n):
+                dbs = []
+                for c in seq:
+                    dbs.append([make_row(o, d, dist=m, fltno=str(101 + i)) for i, (o, d, m) in enumerate(P_SCRIPTS[c])])
+                cases.append({'sub': 'P', 'year': 2019, 'via': via, 'seq': ''.join(seq), 'dbs': dbs})
+    subs.append({
+        'name': 'P: every sequence of 2..3 database objects (5 scripts) built one after the other in one process',
+        'axes': {'script': {k: [list(x) for x in v] for k, v in P_SCRIPTS.items()}, 'databases': [2, 3], 'import route': ['add', 'file']},
+        'cases': cases,
+    })  # fmt: skip
     return subs
 
 
@@ -445,6 +484,14 @@ def worker_init(tier, seed):
         factory._vf_memo = True
         timezonefinder.TimezoneFinder = factory
 
+    # warm the worker so that the per-case children inherit the read-only third-party / input data
+    timezonefinder.TimezoneFinder()
+    import AEIC.utils.airports as ap
+
+    ap.airport('JFK')
+    ap.country('US')
+    if 'zygote' not in _STATE:
+        _start_zygote()
     _STATE['ready'] = True
 
 
@@ -608,9 +655,26 @@ def _check_instances(exp, got, label):
 
 
 def _evaluate(case):
-    rows = case['rows']
     year = int(case.get('year', 2019))
     via = case.get('via', 'add')
+    if 'dbs' not in case:
+        return _evaluate_db(case['rows'], year, via)
+    # several database objects built one after the other in this process, each judged on its own
+    n = len(case['dbs'])
+    vio, outs, nontrivial = [], [], False
+    for k, spec in enumerate(_db_specs(case)):
+        r = _evaluate_db(spec['rows'], int(spec['year']), spec['via'])
+        for v in r['violations']:
+            v = dict(v)
+            v['db'] = k
+            v['detail'] = f'database {k + 1} of {n} built one after the other in one process: ' + v['detail']
+            vio.append(v)
+        outs.append(r['outcome'].split(':')[-1] if r['outcome'].startswith('seq:') else r['outcome'].split(':')[0])
+        nontrivial = nontrivial or r['nontrivial']
+    return {'outcome': 'process:' + '|'.join(outs), 'nontrivial': nontrivial, 'violations': vio}
+
+
+def _evaluate_db(rows, year, via):
     exps = [R.expect_row(r, year) for r in rows]
     for r, e in zip(rows, exps):
         if e.get('margin', 1.0) < BOUNDARY_MARGIN_KM:
@@ -747,17 +811,120 @@ def _evaluate(case):
     return {'outcome': outcome, 'nontrivial': nontrivial or bool(vio), 'violations': vio}
 
 
+# -- clean-process service ------------------------------------------------------------------------
+# Cases run in the worker itself (2-3 ms).  Whenever one shows an untagged violation it is evaluated again
+# in a CLEAN process: a child forked from a "zygote" that was itself forked from the worker at start-up,
+# before any case ran, and never runs a case.  A violation that needs databases built earlier in the same
+# process is then re-created explicitly (earlier databases + this one, as one multi-database case) and
+# reported with that self-contained case, so the fresh-process confirmation reproduces it.
+
+
+def _zygote_main(req_r, resp_w):
+    fin = os.fdopen(req_r, 'r')
+    while True:
+        line = fin.readline()
+        if not line:
+            os._exit(0)
+        pid = os.fork()
+        if pid == 0:
+            try:
+                try:
+                    out = {'ok': _evaluate(json.loads(line))}
+                except BaseException:  # noqa: BLE001 - handed to the worker, never swallowed
+                    import traceback
+
+                    out = {'harness': traceback.format_exc()}
+                os.write(resp_w, (json.dumps(out, default=str) + '\n').encode())
+            finally:
+                os._exit(0)
+        _, status = os.waitpid(pid, 0)
+        if status != 0:
+            os.write(resp_w, (json.dumps({'harness': f'clean child ended with status {status}'}) + '\n').encode())
+
+
+def _start_zygote():
+    req_r, req_w = os.pipe()
+    resp_r, resp_w = os.pipe()
+    pid = os.fork()
+    if pid == 0:
+        try:
+            os.close(req_w)
+            os.close(resp_r)
+            _zygote_main(req_r, resp_w)
+        finally:
+            os._exit(0)
+    os.close(req_r)
+    os.close(resp_w)
+    _STATE['zygote'] = (os.fdopen(req_w, 'w'), os.fdopen(resp_r, 'r'), pid)
+
+
+def _clean_eval(case):
+    req, resp, _ = _STATE['zygote']
+    req.write(json.dumps(case) + '\n')
+    req.flush()
+    line = resp.readline()
+    if not line:
+        raise HarnessError('the clean-process service died')
+    out = json.loads(line)
+    if 'harness' in out:
+        raise HarnessError('clean-process evaluation failed: ' + out['harness'])
+    return out['ok']
+
+
+def _db_specs(case):
+    year, via = int(case.get('year', 2019)), case.get('via', 'add')
+    if 'dbs' in case:
+        return [d if isinstance(d, dict) else {'rows': d, 'year': year, 'via': via} for d in case['dbs']]
+    return [{'rows': case['rows'], 'year': year, 'via': via}]
+
+
+def _untagged(r):
+    return sorted({v['kind'] for v in r['violations'] if not v.get('finding')})
+
+
+_HISTORY = []  # database specs of the cases this worker has already run
+DEPENDENCE_REPORTS_PER_WORKER = 3
+
+
 def run_case(case):
     if not _STATE.get('ready'):
         worker_init('quick', 0)
     try:
-        return _evaluate(case)
+        r1 = _evaluate(case)
     except R.RefError as e:
         raise HarnessError(str(e)) from e
+    specs = _db_specs(case)
+    try:
+        if not _untagged(r1):
+            return r1
+        r2 = _clean_eval(case)
+        if _untagged(r2):
+            return r2  # reproducible in a clean process as it stands
+        # seen here, not in a clean process: it depends on databases built earlier in this worker
+        if _STATE.get('dependence_reports', 0) >= DEPENDENCE_REPORTS_PER_WORKER or not _HISTORY:
+            r2['outcome'] = 'depends-on-earlier-database:not-searched'
+            return r2
+        tries = [_HISTORY[-1:]] + [[h] for h in _HISTORY[:30]] + [list(_HISTORY)]
+        for pre in tries:
+            synth = {'sub': 'P*', 'year': specs[-1]['year'], 'via': specs[-1]['via'], 'dbs': pre + specs}
+            r3 = _clean_eval(synth)
+            vs = [v for v in r3['violations'] if not v.get('finding') and v.get('db', 0) >= len(pre)]
+            if vs:
+                _STATE['dependence_reports'] = _STATE.get('dependence_reports', 0) + 1
+                return {'outcome': 'depends-on-earlier-database', 'nontrivial': True, 'violations': vs, 'replay_case': synth}
+        raise HarnessError(
+            f'violation {_untagged(r1)} seen in a worker is reproduced neither in a clean process nor after '
+            f're-building all {len(_HISTORY)} databases this worker had built before: {json.dumps(case)[:600]}'
+        )
+    finally:
+        _HISTORY.extend(specs)
 
 
 def replay(case):
-    return run_case(case).get('violations', [])
+    # the replaying process is fresh: nothing was built before
+    if not _STATE.get('ready'):
+        worker_init('quick', 0)
+    return _evaluate(case).get('violations', [])
 
 
 if __name__ == '__main__':  # size report
